@@ -5,6 +5,7 @@ Sequence generator (tier 1) + request store and `_handle_response` correlation (
 import SmppVerif.Lemmas.Policy
 import SmppVerif.Lemmas.Expiry
 import SmppVerif.Lemmas.SweepTasks
+import SmppVerif.Lemmas.SenderLoop
 
 namespace SmppVerif.Props.C13
 open SmppVerif SmppVerif.Policy SmppVerif.Corr SmppVerif.Lemmas.Policy SmppVerif.Lemmas.Corr
@@ -143,6 +144,16 @@ theorem matched_at_most_once_under_interleaving (k : Nat) (evs : List Ev) (w : W
     (hnew : aget w.cs.store k = none) (hput : inserted k (run w evs).2 ≤ 1) : removed k (run w evs).2 ≤ 1 :=
   at_most_once k evs w hnew hput
 
+open SmppVerif.SenderLoop SmppVerif.Lemmas.SenderLoop in
+/-- At the send path (Model/SenderLoop.lean: the Sender working through any queue of messages, plain or segmented, some of
+    which may fail to be built): the sequence_number fields of the submit_sm PDUs written are, in order, numbers drawn one
+    after the other from the generator — a sublist of its next `n` draws — and therefore pairwise distinct as long as fewer
+    numbers are drawn than the generator's period (2^31 - 1 for the default range), also across the wrap-around. -/
+theorem sender_sequence_numbers_distinct (dflt : Pdu.Enc) (ms : List Pdu.Sm) (gs : Gens) (hinv : SeqInv gs.seq) :
+    ∃ n, (((loop dflt gs ms).flatMap wireOf).map seqOf).Sublist (gs.seq.take n) ∧
+      (n ≤ period gs.seq → (((loop dflt gs ms).flatMap wireOf).map seqOf).Nodup) :=
+  loop_seqs_nodup dflt ms gs hinv
+
 end SmppVerif.Props.C13
 
 #print axioms SmppVerif.Props.C13.esme_generator_ok
@@ -158,3 +169,4 @@ end SmppVerif.Props.C13
 #print axioms SmppVerif.Props.C13.mismatched_dropped
 #print axioms SmppVerif.Props.C13.attribution_source
 #print axioms SmppVerif.Props.C13.matched_at_most_once_under_interleaving
+#print axioms SmppVerif.Props.C13.sender_sequence_numbers_distinct
